@@ -16,7 +16,7 @@ Lemma add_edge_succs_same g a b :
 Proof. unfold add_edge. rewrite !add_node_succs.
   destruct (mem_str b (succs g a)).
   - rewrite !add_node_succs. reflexivity.
-  - unfold succs at 1. simpl. rewrite assoc_set, String.eqb_refl. rewrite !add_node_succs. reflexivity. Qed.
+  - unfold succs at 1. simpl. rewrite assoc_set, String.eqb_refl. rewrite ?add_node_succs. reflexivity. Qed.
 Lemma add_edge_preds_other g a b x : x <> b -> preds (add_edge g a b) x = preds g x.
 Proof. intros Hn. unfold add_edge. destruct (mem_str b (succs (add_node (add_node g a) b) a)).
   - rewrite !add_node_preds. reflexivity.
@@ -27,26 +27,26 @@ Proof. intros Hn. unfold add_edge. destruct (mem_str b (succs (add_node (add_nod
 Definition add_edges (h : graph) (es : list (string * string)) : graph :=
   fold_left (fun h e => add_edge h (fst e) (snd e)) es h.
 Lemma gwf_add_edges es : forall h, gwf h -> gwf (add_edges h es).
-Proof. induction es as [|e es IH]; intros h H; simpl; auto. apply IH, gwf_add_edge; auto. Qed.
+Proof. unfold add_edges. induction es as [|e es IH]; intros h H; simpl; auto. apply IH, gwf_add_edge; auto. Qed.
 Lemma add_edges_succs es : forall h x y,
   In y (succs (add_edges h es) x) <-> In y (succs h x) \/ In (x, y) es.
-Proof. induction es as [|[a b] es IH]; intros h x y; simpl; [tauto|].
-  unfold add_edges in IH. rewrite IH, add_edge_succs. simpl.
+Proof. unfold add_edges. induction es as [|[a b] es IH]; intros h x y; simpl; [tauto|].
+  rewrite IH, add_edge_succs. simpl.
   split; [intros [[H|[-> ->]]|H]|intros [H|[H|H]]]; auto.
   inversion H; subst; auto. Qed.
 Lemma add_edges_nodes es : forall h x,
   In x (g_nodes (add_edges h es)) <-> In x (g_nodes h) \/ exists e, In e es /\ (x = fst e \/ x = snd e).
-Proof. induction es as [|[a b] es IH]; intros h x; simpl.
+Proof. unfold add_edges. induction es as [|[a b] es IH]; intros h x; simpl.
   - split; auto. intros [H|[e [[] _]]]; auto.
-  - unfold add_edges in IH. rewrite IH, add_edge_nodes. simpl. split.
+  - rewrite IH, add_edge_nodes. simpl. split.
     + intros [[H|H]|[e [H1 H2]]]; auto.
       * right. exists (a, b). auto.
       * right. exists e. auto.
     + intros [H|[e [[<-|H1] H2]]]; auto. right. exists e. auto. Qed.
 Lemma add_edges_nodes_eq es : forall h,
   (forall e, In e es -> In (fst e) (g_nodes h) /\ In (snd e) (g_nodes h)) -> g_nodes (add_edges h es) = g_nodes h.
-Proof. induction es as [|[a b] es IH]; intros h H; simpl; auto.
-  unfold add_edges in IH. destruct (H (a, b)) as [Ha Hb]; [left; auto|]. simpl in *.
+Proof. unfold add_edges. induction es as [|[a b] es IH]; intros h H; simpl; auto.
+  destruct (H (a, b)) as [Ha Hb]; [left; auto|]. simpl in *.
   rewrite IH; [apply add_edge_nodes_eq; auto|].
   intros e He. rewrite add_edge_nodes_eq; auto. Qed.
 
@@ -76,7 +76,7 @@ Proof. intros H. induction 1; [apply rp_refl|]. eapply rp_step; eauto. Qed.
 Lemma rpath_ext adj adj' a b : (forall x y, In y (adj x) <-> In y (adj' x)) -> (rpath adj a b <-> rpath adj' a b).
 Proof. intros H. split; apply rpath_incl; intros x y; apply H. Qed.
 Lemma rpath_stuck adj s t : adj s = [] -> rpath adj s t -> t = s.
-Proof. intros H. induction 1; auto. subst. rewrite H in H1. destruct H1. Qed.
+Proof. intros H Hr. induction Hr as [|x y z Hr IH Hz]; auto. rewrite (IH H), H in Hz. destruct Hz. Qed.
 Lemma rpath_step_l adj x y z : In y (adj x) -> rpath adj y z -> rpath adj x z.
 Proof. intros H1 H2. eapply rpath_trans; [|eauto]. eapply rp_step; [apply rp_refl|auto]. Qed.
 
@@ -108,5 +108,4 @@ Lemma dedup_by_In_gen {A} (eqb : A -> A -> bool) (Heq : forall a b, eqb a b = tr
 Proof. induction l as [|a l IH]; simpl; [tauto|]. rewrite filter_In, IH.
   destruct (eqb a x) eqn:E.
   - apply Heq in E. subst. simpl. intuition discriminate.
-  - simpl. split; [intros [H|[H _]]; auto|]. intros [H|H]; auto. subst.
-    assert (eqb x x = true) by (apply Heq; auto). congruence. Qed.
+  - simpl. split; [intros [H|[H _]]; auto|]. intros [H|H]; auto. Qed.
